@@ -235,6 +235,22 @@ def main():
             compare(res, ("broadcast", lead, tn, (Ne, nPg, d)), f"broadcast lead={lead} tensor_ndim={tn}", got, want, True,
                     dict(shape=list(shape), Ne=Ne, nPg=nPg, tensor_ndim=tn, values=v.tolist()))
 
+    # ---------------- broadcast with a declared tensor rank when the sizes coincide (nPg == n, Ne == nPg == n) ----------------
+    for (Ne_, nPg_, d_) in ((7, 3, 3), (3, 3, 3), (4, 6, 6), (6, 6, 6), (1, 3, 3), (3, 1, 3)):
+        for tn in (1, 2):
+            tail = (d_,) * tn
+            for lead in ("none", "e", "ep"):
+                shape = dict(e=(Ne_,), ep=(Ne_, nPg_), none=())[lead] + tail
+                v = ints(rng, shape)
+                try:
+                    got = FeArray.broadcast(v, Ne_, nPg_, tn)
+                except Exception as ex:  # noqa: BLE001
+                    res.fail(f"broadcast lead={lead} tensor_ndim={tn} raises", f"broadcast raised {ex!r} for shape {shape}", dict(shape=list(shape), Ne=Ne_, nPg=nPg_, tensor_ndim=tn))
+                    continue
+                want = v if lead == "ep" else (np.broadcast_to(v.reshape((Ne_, 1) + tail), (Ne_, nPg_) + tail) if lead == "e" else np.broadcast_to(v, (Ne_, nPg_) + tail))
+                compare(res, ("broadcast-collision", lead, tn, (Ne_, nPg_, d_)), f"broadcast lead={lead} tensor_ndim={tn} (sizes coincide)", got, want, True,
+                        dict(shape=list(shape), Ne=Ne_, nPg=nPg_, tensor_ndim=tn, values=v.tolist()))
+
     # ---------------- correspondence ----------------
     lines, expect = [], []
     for nd in range(2, 7):
